@@ -43,6 +43,8 @@ class Report:
         self.states += res.distinct
         self.transitions += res.generated
         self.cov.setdefault('tlc_runs', []).append(dict(label=label, **res.summary()))
+        if getattr(res, 'tlc_error', None):
+            self.machinery.append(f'TLC error in "{label}": {res.tlc_error}')
         for k, (d, t) in res.coverage.items():
             c = self.cov.setdefault('actions', {})
             od, ot = c.get(k, (0, 0))
